@@ -684,6 +684,7 @@ func provloopsExtra(t *tr) string {
 		p := load("github.com/yandex/pandora/core/provider")
 		x := &provloopsPl{t: t, pkg: p, ctx: "core/provider", vars: map[string]string{"conf.AmmoQueueSize": "ammoQueueSize"}}
 		x.requireMin0("DecodeProviderConfig", "Limit", "Passes")
+		b.WriteString(provloopsDefaultsExtra(t, p))
 		if fd := provloopsMethod(p, "", "NewAmmoQueue"); fd == nil {
 			t.errs = append(t.errs, "provloops: NewAmmoQueue not found")
 		} else {
